@@ -42,7 +42,7 @@
 #define MAXBUF 256
 struct sbent { void *addr; size_t sz; unsigned long v; int mo; };
 struct thr {
-	pthread_t tid; int alive; int is_app;
+	pthread_t tid; int alive; int is_app; int frozen;
 	sem_t go;
 	struct sbent buf[MAXBUF]; int nbuf;
 	void (*fn)(int); void *(*pfn)(void *); void *parg; int want_join;
@@ -58,6 +58,7 @@ static sem_t ctl, born;
 static __thread int me = -1;
 static __thread int noyield;
 int vs_tso = 1, vs_strict = 1; long vs_step_limit = 100000;
+int vs_end_with_apps;      /* the run ends when the schedule is exhausted and every application thread has exited (a library thread that never sleeps would keep it going) */
 static void (*sig_handler)(int);
 int vs_self(void){ return me; }
 long vs_steps(int t){ return T[t].steps; }
@@ -266,13 +267,16 @@ void vs_ret(const char *op, unsigned long r){ if(me>=0) plain_settle(); if(me<0|
 void vs_note(const char *fmt, ...){ if(me>=0) plain_settle(); va_list ap; va_start(ap,fmt); printf("%d note ", me); vprintf(fmt,ap); printf("\n"); va_end(ap); }
 
 static int enabled(int t){
-	if(!T[t].alive) return 0;
+	if(!T[t].alive || T[t].frozen) return 0;
 	if(T[t].needs_empty && T[t].nbuf) return 0;
 	if(T[t].want_mutex && MX[mx_idx(T[t].want_mutex)].owner!=-1) return 0;
 	if(T[t].want_futex && !T[t].woken) return 0;
 	if(T[t].want_cond && !T[t].woken) return 0;
 	if(T[t].want_join>=0 && T[T[t].want_join].alive) return 0;
 	return 1; }
+/* the fork child: every library-created thread alive now ceases to exist (it is never scheduled again) */
+void vs_freeze_lib_threads(void){ for(int t=0;t<NT;t++) if(T[t].alive && !T[t].is_app){ T[t].frozen=1; printf("%d frozen\n", t); } }
+int vs_is_app(int t){ return t>=0 && t<NT && T[t].is_app; }
 static void *tmain(void *arg){ int t=(int)(long)arg; me=t;
 	if(!T[t].fn){ sem_post(&born); sem_wait(&T[t].go); T[t].steps++; printf("%d start\n",t); }
 	if(T[t].fn) T[t].fn(t); else T[t].pfn(T[t].parg);
@@ -299,7 +303,7 @@ void vs_run(const char *sched){
 	signal(SIGABRT,on_abort); signal(SIGSEGV,on_abort);
 	for(;;){
 		int alive=0; for(int t=0;t<NT;t++) alive+=T[t].alive+T[t].nbuf; if(!alive) break;
-		int c; int rt=-1; if(*p) c=*p++; else { rt=rr++%NT; c = T[rt].nbuf ? 'a' : '0'; }      /* after the schedule: round robin over all threads (ids may exceed 9) */
+		int c; int rt=-1; if(*p) c=*p++; else { if(vs_end_with_apps){ int app=0; for(int u=0;u<NT;u++) app+=T[u].alive&&T[u].is_app; if(!app){ printf("APPS DONE\n"); break; } } rt=rr++%NT; c = T[rt].nbuf ? 'a' : '0'; }      /* after the schedule: round robin over all threads (ids may exceed 9) */
 		if(rt>=0 ? c=='a' : (c>='a'&&c<'a'+NT)){ int t = rt>=0 ? rt : c-'a'; if(T[t].nbuf){ char l[64], v[64]; vs_ploc(l,T[t].buf[0].addr); pval(v,T[t].buf[0].v,T[t].buf[0].sz); commit_one(t); printf("%d flush %s v=%s\n", t, l, v);} continue; }
 		if(c>='A'&&c<'A'+NT){ int t=c-'A'; if((T[t].want_futex||T[t].want_cond)&&!T[t].woken){ T[t].woken=1; T[t].wake_reason=1; printf("%d spurious\n",t);} continue; }
 		if(c=='~'){ if(*p){ int t=*p++-'0'; if(t>=0&&t<NT) T[t].enosys_next=1; } continue; }
